@@ -134,7 +134,8 @@ def obligations(tier, rng):
     out.append(ob('C10', 'dt', 'dt/pastified/%s/k=2/resets=2' % text(('eventually_t', X, 0, 2)), f=('eventually_t', X, 0, 2), k=2, m=m + 1, pastify=True, rounds=2))
     out.append(ob('C10', 'dt', 'dt/subspec/p=prev(x)/out=(p) and (z)/k=2/resets=2', f=('and', Pn, Z), defs=[['p', ('prev', X)]], k=2, m=m, rounds=2))
     if not quick:
-        f2 = refsem.depth2(PAST_OPS, PAST_OPS, [(0, 1), (1, 2)])
+        nodiv = [k for k in PAST_OPS if k != 'div']
+        f2 = refsem.depth2(nodiv, nodiv, [(0, 1), (1, 2)])
         for f in rng.sample(f2, 300):
             out.append(ob('C10', 'dt', 'dt/F2/%s/k=3' % text(f), f=f, k=3, m=5))
     # dense time
